@@ -8,18 +8,18 @@ SUB, JUDGE = "build", "OFTrace"
 # family -> (quick: tags, stride), (thorough: tags, stride), expected minimum
 FAMILIES = {
     "A1": (("{7}", 1), ("{7, 1000, 2000, 3000, 4000, 61}", 1), 200),
-    "A2": (("{7}", 9), ("{7, 2000}", 1), 800),
+    "A2": (("{7}", 9), ("{7, 2000, 61}", 1), 800),
     "M1": (("{7, 2000}", 1), ("{7, 1000, 2000, 3000, 4000, 61}", 1), 100),
-    "M2": (("{7}", 11), ("{7, 1000}", 1), 400),
-    "MR": (("{7}", 3), ("{7, 2000}", 1), 100),          # the stride thins only the generic-builder part
-    "I": (("{7}", 1), ("{7, 2000}", 1), 500),
+    "M2": (("{7}", 11), ("{7, 1000, 2000}", 1), 400),
+    "MR": (("{7}", 3), ("{7, 2000, 61}", 1), 100),          # the stride thins only the generic-builder part
+    "I": (("{7}", 1), ("{7, 2000, 61}", 1), 500),
     "G": (("{7}", 1), ("{7, 1000, 2000}", 1), 100),
     "S": (("{7, 2000}", 1), ("{7, 1000, 2000, 3000, 4000, 61}", 1), 30),
-    "W": (("{7}", 1), ("{7, 1000, 2000}", 1), 17),
-    "O": (("{7}", 1), ("{7, 61, 2000}", 1), 20),
+    "W": (("{7}", 1), ("{7, 1000, 2000, 61, 3000}", 1), 17),
+    "O": (("{7}", 1), ("{7, 61, 2000, 1000}", 1), 20),
     "P": (("{7}", 1), ("{7, 1000, 2000}", 1), 18),
     "B": (("{7}", 1), ("{7}", 1), 4),
-    "L": (("{7}", 1), ("{7, 2000, 61}", 1), 150),
+    "L": (("{7}", 1), ("{7, 2000, 61, 1000}", 1), 150),
     "N": (("{7}", 1), ("{7, 1000, 2000}", 1), 90),
     "T": (("{7, 61}", 1), ("{7, 61, 2000, 1000}", 1), 7),
     "R": (("{7}", 1), ("{7}", 1), 100),                           # random deep shapes (RandomElement, TLC -seed)
@@ -27,7 +27,7 @@ FAMILIES = {
 }
 
 
-COUNT = {"quick": 300, "thorough": 6000}
+COUNT = {"quick": 300, "thorough": 12000}
 
 
 def cfg(family, tags, stride, phase, count=1, seed=1):
